@@ -35,6 +35,25 @@ theorem splice_append (acc rest src : List U8) (h : src.length ≤ rest.length) 
   rw [List.drop_eq_nil_of_le (by omega)]
   simp
 
+theorem foldl_wr_range_aux {α : Type} (f : Nat → α) (d : Array α) : ∀ n, n ≤ d.size →
+    List.foldl (fun d j => wr d j (f j)) d (List.range n) = ((List.range n).map f ++ d.toList.drop n).toArray := by
+  intro n
+  induction n with
+  | zero => intro _; simp
+  | succ n ih =>
+    intro h
+    rw [List.range_succ, List.foldl_append, ih (by omega)]
+    simp only [List.foldl_cons, List.foldl_nil, wr, List.map_append, List.map_cons, List.map_nil]
+    apply Array.ext'
+    simp only [Array.toList_setIfInBounds, List.set_append, List.length_map, List.length_range, Nat.lt_irrefl, if_false, Nat.sub_self]
+    rw [List.drop_eq_getElem_cons (by simp; omega)]
+    simp
+/-- storing `f j` at every position `j` of an array, in increasing order -/
+theorem foldl_wr_range {α : Type} (f : Nat → α) (d : Array α) :
+    List.foldl (fun d j => wr d j (f j)) d (List.range d.size) = ((List.range d.size).map f).toArray := by
+  rw [foldl_wr_range_aux f d d.size (Nat.le_refl _)]
+  simp
+
 /-- the last, partial chunk: the buffer is `pre ++` (the `n % 8` bytes not yet written) -/
 theorem splice_tail (pre dest x : List U8) (hp : pre.length = 8 * (dest.length / 8)) (hx : x.length = dest.length % 8) :
     splice (pre ++ dest.drop (8 * (dest.length / 8))) (8 * (dest.length / 8)) x = pre ++ x := by
